@@ -176,7 +176,8 @@ AXIOM_HDR = re.compile(r"^Axioms:\s*$")
 
 def parse_assumptions(output: str):
     """Parse the output of `Print Assumptions` commands in a compiled file.
-    Returns list of (closed: bool, axioms: [names])."""
+    Returns list of (closed: bool, axioms: [names]).  An axiom entry starts in column 0
+    (`Name : type` or, when the type wraps, `Name` alone); continuation lines are indented."""
     blocks = []
     lines = output.splitlines()
     i = 0
@@ -187,10 +188,17 @@ def parse_assumptions(output: str):
         elif AXIOM_HDR.match(ln):
             names = []
             i += 1
-            while i < len(lines) and lines[i].strip():
-                m = re.match(r"^([A-Za-z_][\w.']*)\s*:", lines[i])
-                if m:
+            while i < len(lines):
+                l2 = lines[i]
+                if AXIOM_HDR.match(l2) or l2.startswith("Closed under the global context"):
+                    i -= 1
+                    break
+                m = re.match(r"^([A-Za-z_][\w.']*)\s*(:.*)?$", l2)
+                if m and m.group(1) != "Axioms":
                     names.append(m.group(1))
+                elif l2 and not l2[0].isspace():
+                    i -= 1
+                    break
                 i += 1
             blocks.append((False, names))
         i += 1
